@@ -74,7 +74,7 @@ theorem pm2_sound (cap : Nat) (hc : 2 ≤ cap) (parts : List ((Int × Int) × (I
     obtain ⟨_, _, _, _, _, _, rfl⟩ := hq
     simp only [min4, max4]; omega
   · refine ⟨(min4 (f ab.1 cd.1) (f ab.1 cd.2) (f ab.2 cd.1) (f ab.2 cd.2), max4 (f ab.1 cd.1) (f ab.1 cd.2) (f ab.2 cd.1) (f ab.2 cd.2)),
-      List.mem_flatMap.mpr ⟨p, hp, List.mem_flatMap.mpr ⟨ab, hab, List.mem_map.mpr ⟨cd, hcd, rfl⟩⟩⟩, ?_⟩
+      List.mem_flatMap.mpr ⟨p, hp, List.mem_flatMap.mpr ⟨cd, hcd, List.mem_map.mpr ⟨ab, hab, rfl⟩⟩⟩, ?_⟩
     simp only [min4, max4]; omega
 
 /-! ### instances: the integer implementations of `function.rs` -/
